@@ -60,7 +60,7 @@ def gen_plan(seed, tier):
   for i in range(n):
     k = r.wpick([(5, "flow_mod"), (8, "frame"), (4, "packet_out"),
                  (2, "po_buf"), (3, "port_mod"), (1, "port_stats"),
-                 (1, "set_config")])
+                 (2, "set_config")])
     if k == "flow_mod":
       fs, port = r.pick(frames)
       key = G.frame_key(fs, port)
@@ -112,7 +112,7 @@ def gen_plan(seed, tier):
     elif k == "port_stats":
       steps.append({"op": "port_stats"})
     else:
-      steps.append({"op": "set_config", "flags": r.pick([0, 0, 1]),
+      steps.append({"op": "set_config", "flags": r.pick([0, 1, 1]),
                     "msl": r.pick([0, 64, 1500])})
   return {"prop": PROP, "seed": seed, "cfg": cfg, "steps": steps}
 
